@@ -5,6 +5,7 @@ import (
 	"fmt"
 	"math/rand/v2"
 	"sort"
+	"strings"
 	"time"
 
 	revresult "github.com/notaryproject/notation-core-go/revocation/result"
@@ -81,6 +82,8 @@ func (c06) Gen(r *rand.Rand, tier string, idx int) *core.Plan {
 	if r.IntN(3) == 0 {
 		p.Ops = append([]core.Op{{Kind: "verify-at", I: []int64{5, 0}}}, p.Ops...) // shortly after signing
 	}
+	// the document spells verifyTimestamp in another letter case: refused, or it means what it spells
+	w["vtSpell"] = int64(core.Pick(r, 0, 0, 0, 0, 0, 0, 0, 0, 0, 1, 2, 3))
 	return p
 }
 
@@ -301,15 +304,35 @@ func (l c06) Exec(env *core.Env) *core.Result {
 			stores = append(stores, "tsa:t")
 		}
 		vt := map[int64]string{2: "always", 3: "afterCertExpiry"}[tsaMode]
+		respelled := false
+		if vt != "" && w["vtSpell"] != 0 {
+			switch w["vtSpell"] {
+			case 1:
+				vt = strings.ToUpper(vt[:1]) + vt[1:]
+			case 2:
+				vt = strings.ToUpper(vt)
+			case 3:
+				vt = map[string]string{"always": "aLWAYS", "afterCertExpiry": "aftercertexpiry"}[vt]
+			}
+			respelled = true
+		}
 		expiryAction := "log"
 		if w["expiryAction"] == 1 {
 			expiryAction = "enforce"
 		}
 		v, err := buildVerifier(vcfg{level: "strict", override: map[string]string{"expiry": expiryAction, "authenticTimestamp": "log", "revocation": "skip"}, verifyTimestamp: vt,
 			stores: stores, store: store, validator: &world.ScriptedValidator{}, tsValidator: tsVal, ctor: w["ctor"]})
+		if err != nil && respelled {
+			res.Probe("respelled_verifyTimestamp_refused")
+			sim.Abstract("respelled-refused")
+			return
+		}
 		if err != nil {
 			res.Violate("HARNESS/verifier", "", "%v", err)
 			return
+		}
+		if respelled {
+			res.Probe("respelled_verifyTimestamp_accepted")
 		}
 		// instants, ascending (the clock only moves forward)
 		boundary := func(b int64) time.Time {
